@@ -20,7 +20,7 @@ from .core import Check
 from .frames import abstract
 from .tlc import run_tlc, validate_trace
 
-INDEXES = ["default", "named", "unnamed", "nonunique", "hilbert", "strings"]
+INDEXES = ["default", "named", "unnamed", "nonunique", "hilbert", "strings", "range-offset", "range-step"]
 
 
 def make_index(kind, n, rng):
@@ -28,6 +28,10 @@ def make_index(kind, n, rng):
         return None
     if kind == "named":
         return pd.Index(range(100, 100 + n), name="key")
+    if kind == "range-offset":              # what a positional slice of a default-indexed frame carries: a RangeIndex that is not 0..n-1
+        return pd.RangeIndex(5, 5 + n)
+    if kind == "range-step":
+        return pd.RangeIndex(2, 2 + 3 * n, 3)
     if kind == "unnamed":
         return pd.Index([3 * i + 7 for i in range(n)])
     if kind == "nonunique":
